@@ -55,6 +55,9 @@ func kfRepeat(args []KeyBuilderStage) (KeyBuilderStage, error) {
 	}), nil
 }
 
+// Upper bound of the length argument of {bar}, in characters
+const maxBarLen = 10_000
+
 // {bar {val} "maxVal" "len" ["scaler"]}
 func kfBar(args []KeyBuilderStage) (KeyBuilderStage, error) {
 	if !isArgCountBetween(args, 3, 4) {
@@ -68,6 +71,9 @@ func kfBar(args []KeyBuilderStage) (KeyBuilderStage, error) {
 	maxLen, maxLenOk := EvalStageInt(args[2])
 	if !maxLenOk {
 		return stageArgError(ErrNum, 2)
+	}
+	if maxLen < 0 || maxLen > maxBarLen {
+		return stageArgError(ErrValue, 2)
 	}
 
 	scaler := termscaler.ScalerLinear
